@@ -28,7 +28,7 @@ func init() {
 
 func runC07(r *R) {
 	w, f := r.W, r.F
-	kinds := []string{"uri", "uripost", "raw", "json-lines", "json-pretty", "json-array"}
+	kinds := []string{"uri", "uripost", "raw", "json-lines", "json-pretty", "json-array", "uri", "uripost", "raw", "json-lines", "json-pretty", "json-array", "uri-inline"}
 	kind := kinds[w.Draw(len(kinds))]
 	if r.Mode != "" {
 		kind = r.Mode
@@ -41,6 +41,11 @@ func runC07(r *R) {
 		if kind == "json-array" && w.Draw(2) == 0 {
 			l.JSONMode = 3
 		}
+	}
+	inline := kind == "uri-inline" // the uri provider fed from the `uris` list of its configuration: same lines, no file
+	if inline {
+		format, typ = "uri", "uri"
+		l = layout{}
 	}
 	items := genFile(w, format, 8)
 	passes := 1 + w.Draw(3)
@@ -56,7 +61,7 @@ func runC07(r *R) {
 		plan.ZeroReads = []int{w.Draw(4), 4 + w.Draw(30), 40 + w.Draw(100)}
 	}
 	faultAt := int64(-1)
-	if f.Biased(4, 3, 4) == 1 && len(file) > 0 {
+	if f.Biased(4, 3, 4) == 1 && len(file) > 0 && !inline {
 		faultAt = faultOffset(f, file)
 		plan.ReadErrAt, _ = faultAt, syscall.EIO
 		// one time in three the error is transient: that Read call fails, the next one succeeds
@@ -69,7 +74,17 @@ func runC07(r *R) {
 	}
 	r.Note("format:" + kind)
 	conf := map[string]interface{}{"type": typ, "file": "/ammo/ammo.txt", "passes": passes, "preload": preload}
-	out := runProvider(r, provRun{Conf: conf, Files: map[string][]byte{"/ammo/ammo.txt": file}, Plans: map[string]simfs.Plan{"/ammo/ammo.txt": plan}, Consumers: cons, Extract: extractHTTP}, false)
+	pr := provRun{Conf: conf, Files: map[string][]byte{"/ammo/ammo.txt": file}, Plans: map[string]simfs.Plan{"/ammo/ammo.txt": plan}, Consumers: cons, Extract: extractHTTP}
+	if inline {
+		var uris []interface{}
+		for _, ln := range strings.Split(strings.TrimSuffix(string(file), "\n"), "\n") {
+			uris = append(uris, ln)
+		}
+		delete(conf, "file")
+		conf["uris"] = uris
+		pr.Files, pr.Plans = nil, nil
+	}
+	out := runProvider(r, pr, false)
 	for k, v := range out.DiskFired {
 		for i := 0; i < v; i++ {
 			r.Fault("disk:"+k, true)
